@@ -16,7 +16,7 @@ FEATURES = ("assign", "print", "control", "agg")
 RULE = (
     "random programs x random files x every combination of return-mode {absent, matches, no-matches}, unmatched-mode {absent, keep, no-keep}, "
     "run-mode {absent, run, no-run}, print-mode {absent, default, no-default}, logic-mode {absent, AND, OR} (sampled uniformly) x 0-3 extra "
-    "'key: value' fields with arbitrary value text (any characters except ~ [ ] $ and ':') and leading free text x comment placed before / after / both x entry point {collect(text), next(text), parse+next, parse+collect, fast_forward(text)}. "
+    "'key: value' fields with arbitrary value text (any characters except ~ [ ] $ and ':') and leading free text x comment placed before / after / both x entry point {collect(text), collect(text, nexts=1|2), next(text), parse+next, parse+collect, fast_forward(text)}. "
     "Non-trivial: at least one mode or metadata field present and at least one line scanned; distinct = distinct (mode tuple, field shapes, placement, program skeleton)."
 )
 ASSUMPTIONS = [
@@ -86,7 +86,7 @@ def make_case(seed, shard, i):
             if cm["modes"][mode] is not None and r.random() < 0.7:
                 preset[attr] = r.random() < 0.5
     # the entry point the caller uses; the csvpath text is handed to it directly (parsed lazily) or parsed first
-    method = r.choice(["collect", "collect", "next", "parse+next", "fast_forward", "parse+collect"])
+    method = r.choice(["collect", "collect", "next", "parse+next", "fast_forward", "parse+collect", "collect-nexts-1", "collect-nexts-2"])
     return {"prog": prog, "rows": rows, "comment": cm, "placement": placement, "preset": preset, "method": method}
 
 
@@ -136,6 +136,8 @@ def do_run(text, agg, capture_stdout=True, preset=None, method="collect"):
         try:
             if method == "collect":
                 lines = c.collect(text)
+            elif method.startswith("collect-nexts-"):
+                lines = c.collect(text, nexts=int(method[-1]))  # the documented limit: stop after that many returned lines
             elif method == "next":
                 lines = [ln[:] for ln in c.next(text)]
             elif method == "parse+next":
@@ -232,27 +234,30 @@ def run_case(case, agg):
         w["lines_the_scan_denotes_(read_so_far)"] = denoted
         w["lines_offered_to_the_match_part"] = offered
         return "scanned-lines", w
-    # ---- same run apart from the return decision
-    bt, rt = base["trace"], run["trace"]
-    if len(bt) != len(rt):
-        w["trace_len"] = [len(bt), len(rt)]
-        return "mode-changes-the-run", w
-    for x, y in zip(bt, rt):
-        xr = x[2]
-        if inverted and x[1]:
-            xr = not xr
-        if (x[0], x[1], xr) + x[3:] != y:
-            w["base_event"] = x
-            w["event"] = y
-            return "return-mode" if (x[:2] + x[3:] == y[:2] + y[3:]) else "mode-changes-the-run", w
-    # ---- returned lines: complement of the default result within the scanned lines
-    scanned = [(ev["pln"], ev["line"]) for ev in base["rec"].lines if ev["considered"]]
-    base_ret = {ev["pln"] for ev in base["rec"].lines if ev["ret"]}
-    want_lines = [ln for (p, ln) in scanned if ((p not in base_ret) if inverted else (p in base_ret))]
-    if run["lines"] is not None and run["lines"] != want_lines:
-        w["got"] = run["lines"][:6]
-        w["want"] = want_lines[:6]
-        return "returned-lines", w
+    # (with collect(nexts=n) the return mode decides where the run stops: the two runs are not comparable line by line)
+    limited = method.startswith("collect-nexts-")
+    if not limited:
+        # ---- same run apart from the return decision
+        bt, rt = base["trace"], run["trace"]
+        if len(bt) != len(rt):
+            w["trace_len"] = [len(bt), len(rt)]
+            return "mode-changes-the-run", w
+        for x, y in zip(bt, rt):
+            xr = x[2]
+            if inverted and x[1]:
+                xr = not xr
+            if (x[0], x[1], xr) + x[3:] != y:
+                w["base_event"] = x
+                w["event"] = y
+                return "return-mode" if (x[:2] + x[3:] == y[:2] + y[3:]) else "mode-changes-the-run", w
+        # ---- returned lines: complement of the default result within the scanned lines
+        scanned = [(ev["pln"], ev["line"]) for ev in base["rec"].lines if ev["considered"]]
+        base_ret = {ev["pln"] for ev in base["rec"].lines if ev["ret"]}
+        want_lines = [ln for (p, ln) in scanned if ((p not in base_ret) if inverted else (p in base_ret))]
+        if run["lines"] is not None and run["lines"] != want_lines:
+            w["got"] = run["lines"][:6]
+            w["want"] = want_lines[:6]
+            return "returned-lines", w
     # ---- unmatched-mode keep: collected + unmatched partition the records read
     unmatched = c.unmatched
     if modes["unmatched-mode"] == "keep" and "collect" in method:
@@ -273,6 +278,8 @@ def run_case(case, agg):
     elif unmatched:
         w["unmatched"] = unmatched[:4]
         return "unmatched-kept-without-keep", w
+    if limited:
+        return None, None  # (what the two runs print depends on where each stops)
     # ---- printing: the printers see the same; only standard out depends on print-mode
     if run["printed"] != base["printed"]:
         w["printed"] = [base["printed"][:3], run["printed"][:3]]
